@@ -7,6 +7,7 @@ from ..flow import SeqFlow, RETURN, RAISE, guards_at, flatten_guards, \
     PathExplosion, enclosing_trys, handler_names
 from ..constfold import try_fold
 from ..mutate import Mutant, in_func
+from .. import guardspec
 
 ID = 'C13'
 EXPLANATION = (
@@ -1272,6 +1273,51 @@ def rule_r8(prog, res):
     res.floor('R8', 'closing iterators in handle_rpc/handle_error', n, 2)
 
 
+# --------------------------------------------------------------------- R9
+def rule_r9(prog, res):
+    res.rule('R9', 'the error body is always materialised before its length '
+             'is taken; header values written by HttpRpc are text')
+    f = _m(prog, 'handle_error')
+    n = 0
+    for a in walk_no_defs(f.node):
+        if isinstance(a, ast.Assign) and unparse(a.targets[0]).endswith(
+                'out_string') and isinstance(a.value, ast.Call) and \
+                call_name(a.value) in ('list', 'tuple'):
+            n += 1
+            guardspec.check(res, 'R9', f, a, 'materialisation of the error '
+                            'body (%s)' % unparse(a)[:40], allowed=[],
+                            key='WsgiApplication.handle_error|materialise')
+    res.floor('R9', 'materialisation of out_string in handle_error', n, 1)
+    hp = prog.module('spyne.protocol.http')
+    g = hp.functions.get('_header_to_bytes')
+    if g is None:
+        raise AnalysisError('spyne.protocol.http._header_to_bytes',
+                            'not found')
+    vparam = g.params()[1] if len(g.params()) > 1 else 'val'
+    k = 0
+    for r in walk_no_defs(g.node):
+        if not isinstance(r, ast.Return) or r.value is None:
+            continue
+        k += 1
+        raw = isinstance(r.value, ast.Name) and r.value.id == vparam
+        atoms = guardspec.atoms_at(r, g.node)
+        bytes_ok = raw and any(pol and 'isinstance' in t and (
+            'binary_type' in t or 'bytes' in t) for t, pol in atoms)
+        unguarded = raw and not any(pol and 'isinstance' in t
+                                    for t, pol in atoms)
+        bad = bytes_ok or unguarded
+        where = '%s:%d' % (hp.relpath, r.lineno)
+        res.ob('R9', where, '_header_to_bytes returns %s under %s' % (
+            unparse(r.value)[:40], atoms), 'VIOLATED' if bad else 'ok')
+        if bad:
+            res.finding('R9', '_header_to_bytes|raw-bytes', where,
+                        '_header_to_bytes hands back its argument unchanged '
+                        'where it may be a byte string: the value reaches '
+                        'start_response as a bytes header value, which '
+                        'PEP 3333 forbids')
+    res.floor('R9', 'returns of _header_to_bytes', k, 2)
+
+
 def run(prog, res, tier):
     res.run_rule(rule_r1, prog, res)
     res.run_rule(rule_r2, prog, res)
@@ -1281,11 +1327,24 @@ def run(prog, res, tier):
     res.run_rule(rule_r6, prog, res)
     res.run_rule(rule_r7, prog, res)
     res.run_rule(rule_r8, prog, res)
+    res.run_rule(rule_r9, prog, res)
 
 
 _W = 'spyne/server/wsgi.py'
 
 MUTANTS = [
+    Mutant('error-body-materialised-conditionally', 'R9', 'fire', _W,
+           in_func('WsgiApplication.handle_error',
+                   "        p_ctx.out_string = list(p_ctx.out_string)\n",
+                   "        if not isinstance(p_ctx.out_string, list):\n"
+                   "            p_ctx.out_string = list(p_ctx.out_string)\n"),
+           'extra-guard'),
+    Mutant('header-bytes-passed-through', 'R9', 'fire',
+           'spyne/protocol/http.py',
+           in_func('_header_to_bytes', "    else:\n        # because wsgi_ref",
+                   "    elif isinstance(val, (six.text_type, "
+                   "six.binary_type)):\n        return val\n"
+                   "    else:\n        # because wsgi_ref"), 'raw-bytes'),
     Mutant('wsdl-context-closed-in-finally', 'R8', 'fire', _W,
            in_func('WsgiApplication.handle_wsdl_request',
                    "                self._mtx_build_interface_document."
